@@ -1,10 +1,87 @@
 package main
 
-import "math/rand"
+import (
+	"encoding/json"
+	"math/rand"
+)
+
+// c09Prop: two kinds of cases behind one property: receive-loop histories (recv.go)
+// and connection histories with traffic and resumption (session.go).
+type c09Case struct {
+	Recv *recvIn `json:"recv,omitempty"`
+	Sess *sessIn `json:"sess,omitempty"`
+}
+type c09Prop struct {
+	r recvProp
+	s sessProp
+}
+
+func (p c09Prop) ID() string    { return "C09" }
+func (p c09Prop) RunFn() string { return "run_C09" }
+func (p c09Prop) Workers() int  { return 24 }
+func (p c09Prop) Journal() bool { return true }
+func (p c09Prop) Rule() string {
+	return p.r.rule + " PLUS connection histories against the scripted server: stream management enabled with resume granted / refused / absent, 0-8 stanzas of traffic with <r/> after every third, then 0-3 resumptions each with more traffic: every <a h/> and every <resume h/> is compared with the number of stanzas the SERVER sent on the session"
+}
+func (p c09Prop) Gen(r *rand.Rand, tier string) []interface{} {
+	var out []interface{}
+	for _, x := range p.r.Gen(r, tier) {
+		v := x.(recvIn)
+		out = append(out, c09Case{Recv: &v})
+	}
+	for _, x := range genC09sess(r, tier) {
+		v := x.(sessIn)
+		out = append(out, c09Case{Sess: &v})
+	}
+	return out
+}
+func (p c09Prop) Decode(raw json.RawMessage) (interface{}, error) {
+	var c c09Case
+	if err := json.Unmarshal(raw, &c); err != nil {
+		return nil, err
+	}
+	if c.Recv != nil {
+		for i := range c.Recv.Items {
+			if c.Recv.Items[i].XML == "" {
+				c.Recv.Items[i].render()
+			}
+		}
+	}
+	return c, nil
+}
+func (p c09Prop) Run(in interface{}) Sx {
+	c := in.(c09Case)
+	if c.Recv != nil {
+		return p.r.Run(*c.Recv)
+	}
+	return p.s.Run(*c.Sess)
+}
+func (p c09Prop) Input(in interface{}) Sx {
+	c := in.(c09Case)
+	if c.Recv != nil {
+		return L(Z(0), p.r.Input(*c.Recv))
+	}
+	return L(Z(1), p.s.Input(*c.Sess))
+}
+func (p c09Prop) Oracle(in interface{}, obs Sx) (string, string) {
+	c := in.(c09Case)
+	if c.Recv != nil {
+		return p.r.Oracle(*c.Recv, obs)
+	}
+	return p.s.Oracle(*c.Sess, obs)
+}
+func (p c09Prop) Key(in interface{}) (string, bool) {
+	c := in.(c09Case)
+	if c.Recv != nil {
+		return p.r.Key(*c.Recv)
+	}
+	k, nt := p.s.Key(*c.Sess)
+	return "S" + k, nt
+}
 
 func init() {
-	register(recvProp{id: "C09", w: 8, gen: genC09,
-		rule: "stream-managed client: histories of up to 200 items over message/presence/iq/<r/>/<a/>/non-stanza elements, starting inbound count 0/1/7/65535 (a resumed session keeps its count), <r/> at random positions and, for one history per run, after every prefix (exhaustive); oracle compares every h with the number of stanzas the script had sent; distinct = item-kind sequence; non-trivial = >= 2 stanzas and >= 1 <r/>"})
+	register(c09Prop{s: sessProp{id: "C09"}, r: recvProp{id: "C09", w: 8, gen: genC09,
+		rule: "stream-managed client: histories of up to 200 items over message/presence/iq/<r/>/<a/>/non-stanza elements, starting inbound count 0/1/7/65535 (a resumed session keeps its count), <r/> at random positions and, for one history per run, after every prefix (exhaustive); oracle compares every h with the number of stanzas the script had sent; distinct = item-kind sequence; non-trivial = >= 2 stanzas and >= 1 <r/>"}})
 }
 
 func genC09(r *rand.Rand, tier string) []interface{} {
